@@ -1,0 +1,8 @@
+//go:build !verif
+
+// Package verifhook provides instrumentation points for external
+// verification harnesses.  Without the "verif" build tag, At is a no-op.
+package verifhook
+
+// At marks an instrumentation point.
+func At(point string, args ...any) {}
